@@ -58,3 +58,35 @@ for pol, dbn, unit, pfx in (('DB64', 'db', 'u_db', 'tree.db64'), ('OLC64', 'olc_
         roots={'CLEAR': (D64 if dbn == 'db' else r'^unodb::olc_db<unsigned long, %s >::' % SPAN) + r'clear\(\)'}, stubs={'DELSUB': POLICY, 'QSBR_INSTANCE?': r'^unodb::qsbr::instance\(\)', 'QS_SINGLE?': r'^unodb::qsbr_state::single_thread_mode\('}, cfgs=cfgs, thorough_cfgs=ALL_CFGS,
         unwind=8, floor=3, timeout=600, memsafe=False, under_contract=['%s<uint64_t>::clear (whole tree through D, statistics zeroed)' % dbn],
         trusted=['contract D of delete_subtree (proved per function in the delsub jobs + induction)'])
+# ---- insert at an inner node, prefix-split branch (all classes at once; the add / grow / descend branch is the parked step proof k1-k4)
+job('tree.db64.insert.split', ['C01', 'C08', 'C10', 'C16'], 'u_db', 'proofs/tree/insert_split.c', defines=['POL=DB64'],
+    roots={'INSERT_INTERNAL': D64 + r'insert_internal\('}, stubs=dict(ADT, **{'AOCS*': r'unodb::detail::impl_helpers::add_or_choose_subtree<unsigned long'}),
+    cut=['INSERT_INTERNAL/while_2ebody'], cfgs=CFG_TREE, thorough_cfgs=ALL_CFGS, unwind=10, floor=20, timeout=900, objbits=14, memsafe=False,
+    under_contract=['db<uint64_t>::insert_internal (prefix-split branch at an inner node)', 'key_prefix::get_shared_length', 'inode_4::create / basic_inode_4 prefix-split initialisation', 'key_prefix::cut', 'make_db_leaf_ptr'],
+    trusted=['node_ptr as an abstract data type', 'the add / descend branch is cut off here (covered only by the registered node-level contracts)'])
+# ---- insert at an inner node, add / grow / descend branch: impl_helpers::add_or_choose_subtree<inode_N> with a structural contract (light form of the parked k1-k4 step)
+for kind in (1, 2, 3, 4):
+    n = CLSN[kind]
+    roots = {'AOCS': r'unodb::detail::impl_helpers::add_or_choose_subtree<unsigned long, [^(]*unodb::detail::inode_%d<unsigned long' % n}
+    if kind == 3: roots['N48_ADD'] = node_rx(48) + r'add_to_nonfull\('
+    stubs = dict(ADT); stubs['TAG_PTR?'] = stubs.pop('TAG_PTR')
+    if kind == 3: stubs['P_GROW'] = node_rx(256) + r'init\(unodb::db<.*>&, unodb::detail::inode_48<[^()]*>&, std::unique_ptr<'
+    job('tree.db64.aocs.k%d' % kind, ['C01', 'C08', 'C10', 'C16'], 'u_db', 'proofs/tree/aocs_db.c', defines=['KIND=%d' % kind, 'POL=DB64'], roots=roots, stubs=stubs,
+        cfgs=CFG_TREE, thorough_cfgs=ALL_CFGS, unwind={1: 19, 2: 50, 3: 258, 4: 258}[kind], unwindset=({'N48_ADD': 8} if kind == 3 else None),
+        unwindset_raw={'nv_load.0': 260, 'nv_load.1': 260, 'nv_child.0': 18, 'nv_wf_small.0': 18, 'nv_wf_48_full.0': 50, 'nv_wf_48_full.1': 260, 'nv_wf_256_full.0': 260, 'node_wf.0': 50, 'adt_tag.0': 10,
+                       'lg_freed.0': 6, 'lg_on_free.0': 6, 'stats_load.0': 7, 'stats_load.1': 6, 'stats_check.0': 7, 'stats_check.1': 6},
+        floor=20, timeout=1800, mem_gb=20, objbits=14, memsafe=False,
+        under_contract=['impl_helpers::add_or_choose_subtree<inode_%d> (db: descend / in-place add / growth, allocation failure)' % n, 'basic_inode_%d::add_to_nonfull' % n] + (['growing constructor of the next larger class'] if kind <= 2 else []),
+        trusted=['node_ptr as an abstract data type', 'one-level unfolding of the abstract map (composition with get/insert loop invariants is the induction of DESIGN.md 4.4)'] + (['NOT covered: the N48 -> N256 growth branch (copy routine cut off)'] if kind == 3 else []))
+# ---- remove at an inner node of class N48 / N256: impl_helpers::remove_or_choose_subtree<inode_N> with a structural contract (light form of the parked remove.k3/k4 step)
+for kind in (3, 4):
+    n = CLSN[kind]
+    stubs = dict(ADT); stubs['TAG_PTR?'] = stubs.pop('TAG_PTR'); stubs['P_SHRINK'] = node_rx(CLSN[kind - 1]) + r'init\(unodb::db<.*>&, unodb::detail::inode_%d<[^()]*>&, unsigned char\)' % n
+    job('tree.db64.rocs.k%d' % kind, ['C01', 'C08', 'C10', 'C16'], 'u_db', 'proofs/tree/rocs_db.c', defines=['KIND=%d' % kind, 'POL=DB64'],
+        roots={'ROCS': r'unodb::detail::impl_helpers::remove_or_choose_subtree<unsigned long, [^(]*unodb::detail::inode_%d<unsigned long' % n}, stubs=stubs,
+        cfgs=CFG_TREE, thorough_cfgs=ALL_CFGS, unwind=258,
+        unwindset_raw={'nv_load.0': 260, 'nv_load.1': 260, 'nv_child.0': 18, 'nv_wf_small.0': 18, 'nv_wf_48_full.0': 50, 'nv_wf_48_full.1': 260, 'nv_wf_256_full.0': 260, 'node_wf.0': 50, 'adt_tag.0': 10,
+                       'lg_freed.0': 6, 'lg_on_free.0': 6, 'stats_load.0': 7, 'stats_load.1': 6, 'stats_check.0': 7, 'stats_check.1': 6, 'memcmp.0': 10},
+        floor=20, timeout=1800, mem_gb=20, objbits=14, memsafe=False,
+        under_contract=['impl_helpers::remove_or_choose_subtree<inode_%d> (db: not found / descend / in-place removal / shrink, allocation failure)' % n, 'basic_inode_%d::remove' % n],
+        trusted=['node_ptr as an abstract data type', 'one-level unfolding of the abstract map', 'NOT covered: the shrink branch to the next smaller class (copy routine cut off)'])
